@@ -159,6 +159,7 @@ pub struct Pool {
     timeout_ms: AtomicU64,
     stop: Arc<AtomicBool>,
     pub restarts: AtomicU64,
+    exe: Option<String>,
 }
 
 /// user+system CPU time of a process in milliseconds (from /proc/<pid>/stat; 0 if unavailable)
@@ -178,8 +179,11 @@ pub fn proc_cpu_ms(pid: u64) -> u64 {
     ticks * 1000 / hz
 }
 
-fn spawn_worker() -> Handle {
-    let exe = std::env::current_exe().expect("current_exe");
+fn spawn_worker(exe_override: &Option<String>) -> Handle {
+    let exe = match exe_override {
+        Some(p) => std::path::PathBuf::from(p),
+        None => std::env::current_exe().expect("current_exe"),
+    };
     let mut child = Command::new(exe).arg("--worker").stdin(Stdio::piped()).stdout(Stdio::piped()).stderr(Stdio::piped()).spawn().expect("spawn worker");
     let stdin = child.stdin.take().unwrap();
     let stdout = BufReader::new(child.stdout.take().unwrap());
@@ -211,7 +215,13 @@ fn spawn_worker() -> Handle {
 
 impl Pool {
     pub fn new(n: usize) -> Arc<Pool> {
+        Pool::with_exe(n, None)
+    }
+
+    /// workers running another build of vcheck (e.g. the unoptimised `dev0` profile)
+    pub fn with_exe(n: usize, exe: Option<String>) -> Arc<Pool> {
         let pool = Arc::new(Pool {
+            exe,
             slots: (0..n).map(|_| Slot { h: Mutex::new(None), started_ms: AtomicU64::new(0), pid: AtomicU64::new(0), killed: AtomicBool::new(false), cpu_at_start: AtomicU64::new(0), cpu_at_kill: AtomicU64::new(0) }).collect(),
             epoch: Instant::now(),
             timeout_ms: AtomicU64::new(30_000),
@@ -258,7 +268,7 @@ impl Pool {
         let slot = &self.slots[lane % self.slots.len()];
         let mut guard = slot.h.lock().unwrap();
         if guard.is_none() {
-            *guard = Some(spawn_worker());
+            *guard = Some(spawn_worker(&self.exe));
         }
         let h = guard.as_mut().unwrap();
         slot.pid.store(h.child.id() as u64, Ordering::Relaxed);
